@@ -181,3 +181,25 @@ Inductive sel_hist (k : Z) (screen : list splate) : list Z -> Prop :=
 | sel_snoc ids scores el i :
     sel_hist k screen ids -> select_next k screen scores ids = Ok (el, Some i) ->
     sel_hist k screen (ids ++ [i]).
+
+(* ---- vocabulary of the source translation of select_next_plate (harness/src_functions.py C16_SELECT ->
+        Generated/SrcScoringPolicy.v): the meaning given to the attribute / library calls the translator does not
+        translate.  A Plate object is a `plate` (id, sample ids); its is_observed attribute is a function of the
+        object.  Definitions only. ---- *)
+(* np.random.default_rng(): the generator is only handed on to the policy, which never reads it *)
+Definition rng_t : Type := unit.
+Definition fresh_rng : rng_t := tt.
+(* screen.get_plate(i) = Plate(screen, plate_ids == i): the plate of the screen with that id; a Plate that selects no
+   row when the screen has none *)
+Definition get_plate (screen : list plate) (i : Z) : plate :=
+  match find_id i screen with
+  | Some p => p
+  | None => (i, [])
+  end.
+(* Plate.plate_name = screen.plate_names[selection_vector][0]: IndexError (Err 7) when the plate selects no row;
+   the name is represented by the plate id (ids are a dense encoding of the names, C01) *)
+Definition plate_name (p : plate) : result Z :=
+  match rows p with
+  | [] => Err 7
+  | _ :: _ => Ok (plate_id p)
+  end.
